@@ -124,7 +124,9 @@ func (d *structDecoder) tryOptimize() {
 		fieldMap[key] = v
 	}
 
-	if len(fieldMap) > allowOptimizeMaxFieldLen {
+	if len(fieldMap) > allowOptimizeMaxFieldLen || len(fieldMap) == 0 {
+		// ( without fields there is nothing to match: the bitmap matchers take
+		// the first candidate of a key, and there is none )
 		d.isTriedOptimize = true
 		return
 	}
